@@ -799,6 +799,7 @@ bool Annotator::assignAllIds()
         pFunc()->update();
         size_t initialSize = pFunc()->idCount();
         pFunc()->doSetAllAutomaticIds();
+        pFunc()->mHash = pFunc()->generateHash();
         return pFunc()->idCount() > initialSize;
     }
     pFunc()->addIssueNoModel();
@@ -1330,6 +1331,7 @@ std::string Annotator::AnnotatorImpl::setAutoId(const AnyCellmlElementPtr &item)
 
             setId(item, newId);
             mIdList.insert(std::make_pair(newId, convertToWeak(item)));
+            mHash = generateHash();
         } else {
             addIssueNoModel();
         }
